@@ -24,6 +24,7 @@ type chunkReader struct {
 	reads  int
 	// eofWithData: the Read that hands out the last byte also returns io.EOF (allowed by the io.Reader contract)
 	eofWithData bool
+	faultErr    error // what a failing Read returns (nil: errInjected)
 }
 
 // yieldInRead makes every Read give way to other goroutines first (C16: instances interleaved between two reads)
@@ -35,6 +36,9 @@ func (c *chunkReader) Read(p []byte) (int, error) {
 		runtime.Gosched()
 	}
 	if c.fault >= 0 && c.pos >= c.fault {
+		if c.faultErr != nil {
+			return 0, c.faultErr
+		}
 		return 0, errInjected
 	}
 	if c.pos >= len(c.data) {
@@ -163,7 +167,15 @@ type demuxRun struct {
 
 func runScenario(s scenario) *demuxRun {
 	out := &demuxRun{}
-	cr := &chunkReader{data: s.data, chunks: s.chunks, fault: s.fault, eofWithData: s.kind >= 10}
+	// kind = reader kind + 10 * (EOF together with the last bytes) + 20 * (0 plain injected fault, 1 a fault wrapping
+	// io.EOF, 2 a fault wrapping io.ErrUnexpectedEOF)
+	cr := &chunkReader{data: s.data, chunks: s.chunks, fault: s.fault, eofWithData: (s.kind/10)%2 == 1}
+	switch s.kind / 20 {
+	case 1:
+		cr.faultErr = &injectedWrapping{io.EOF}
+	case 2:
+		cr.faultErr = &injectedWrapping{io.ErrUnexpectedEOF}
+	}
 	var rd io.Reader
 	var br *bufio.Reader
 	switch s.kind % 10 {
